@@ -89,39 +89,48 @@ def spec_location(system_prefix, self_loc, url, system):
 
 
 def spec_events(case):
-    """Lazy depth-first walk written from the property statement. Yields ('fetch', loc) / ('exec', tag) and finally
-    ('end', outcome). Statement budget is not part of the property: the caller compares prefixes when it ran out."""
+    """Lazy depth-first walk written from the property statement (explicit stack: cyclic trees never end). Yields
+    ('fetch', loc) / ('exec', tag) and finally ('end', outcome). The statement budget is not part of the property: the
+    caller compares prefixes when the run was cut by it."""
     files = case['files']
     prefix = case['systemPrefix']
-
-    def walk(items, self_loc):
-        for it in items:
-            if it == 'ret':
-                return None
-            if it == 'nop':
+    # a frame: [items, index of the next item, entries of the include statement being processed, index of the next entry, location]
+    stack = [[case['root']['items'], 0, None, 0, case['urlFn']]]
+    while stack:
+        frame = stack[-1]
+        items, i, entries, j, self_loc = frame
+        if entries is not None:
+            if j >= len(entries):
+                frame[2] = None
                 continue
-            if 'stmt' in it:
-                yield ('exec', it['stmt'])
-                continue
-            for url, system in it['inc']:
-                loc = spec_location(prefix, self_loc, url, system)
-                if not case['fetch']:
-                    return {'kind': 'includeFailed', 'url': loc}
-                yield ('fetch', loc)
-                f = files.get(loc)
-                if f is None or f['kind'] in ('missing', 'throws'):
-                    return {'kind': 'includeFailed', 'url': loc}
-                if f['kind'] == 'broken':
-                    return {'kind': 'parseError', 'url': loc}
-                sub = yield from walk(f['items'], loc)
-                if sub is not None:
-                    return sub
-        return None
-
-    def top():
-        res = yield from walk(case['root']['items'], case['urlFn'])
-        yield ('end', res if res is not None else {'kind': 'ok'})
-    return top()
+            frame[3] = j + 1
+            url, system = entries[j]
+            loc = spec_location(prefix, self_loc, url, system)
+            if not case['fetch']:
+                yield ('end', {'kind': 'includeFailed', 'url': loc})
+                return
+            yield ('fetch', loc)
+            f = files.get(loc)
+            if f is None or f['kind'] in ('missing', 'throws'):
+                yield ('end', {'kind': 'includeFailed', 'url': loc})
+                return
+            if f['kind'] == 'broken':
+                yield ('end', {'kind': 'parseError', 'url': loc})
+                return
+            stack.append([f['items'], 0, None, 0, loc])          # the included script runs now, to its end or its return
+            continue
+        if i >= len(items) or items[i] == 'ret':
+            stack.pop()                                           # end of this script only: its includer goes on
+            continue
+        frame[1] = i + 1
+        it = items[i]
+        if it == 'nop':
+            continue
+        if 'stmt' in it:
+            yield ('exec', it['stmt'])
+        else:
+            frame[2], frame[3] = it['inc'], 0
+    yield ('end', {'kind': 'ok'})
 
 
 # ---------------------------------------------------------------------------------------------------------------------
@@ -492,32 +501,29 @@ def model_obs(resp):
 
 def spec_obs(case, impl):
     """The property's expectation for this case (statement budget aside). -> (expected dict, ok?)"""
-    gen = spec_events(case)
     want_events, want_tags = [], []
     n_impl = len(impl['events'])
+    n_trace = len(impl['trace'] or '')
     budget_out = impl['outcome'].get('kind') == 'exceeded' and 0 < case['maxStatements'] < BIG
     outcome = None
-    steps = 0
-    for ev in gen:
-        steps += 1
+    for ev in spec_events(case):
         if ev[0] == 'end':
             outcome = ev[1]
             break
         if ev[0] == 'fetch' or ev[1].startswith('L'):
-            if budget_out and len(want_events) >= n_impl:
-                break
             want_events.append(list(ev))
         if ev[0] == 'exec':
             want_tags.append(ev[1])
-        if steps > 400000:
+        # enough to decide (cyclic trees go on for ever): the implementation stopped earlier than this
+        if len(want_events) > n_impl + 2 and sum(len(t) + 1 for t in want_tags if t.startswith('S')) > n_trace + 2:
             break
+    _, trace = split_tags(want_tags)
     if budget_out:
         # the budget is C09's business: here only "what ran is an initial part of what the property prescribes"
-        ok = impl['events'] == want_events[:n_impl] and impl['trace'] is not None and \
-            ''.join(t + ';' for t in want_tags if t.startswith('S')).startswith(impl['trace'])
+        ok = impl['events'] == want_events[:n_impl] and impl['trace'] is not None and trace.startswith(impl['trace'])
         return {'events_prefix_of': want_events, 'outcome': 'exceeded (budget), any prefix'}, ok
-    _, trace = split_tags(want_tags)
-    want = {'events': want_events, 'outcome': outcome, 'trace': trace}
+    want = {'events': want_events, 'outcome': outcome if outcome is not None else 'the tree goes on'}
+    want['trace'] = trace
     got = {'events': impl['events'], 'outcome': impl['outcome'], 'trace': impl['trace']}
     return want, want == got
 
